@@ -142,6 +142,8 @@ SPECS["C12"] = dict(
                  thorough=dict(shards=6, checks=40000, timeout=1800, steps=60, env={"GOMAXPROCS": 2})),
             dict(id="connpeek", run="^TestC12ConnPeekAndPools$", quick=dict(shards=4, checks=250, timeout=600, shrinktime=20),
                  thorough=dict(shards=8, checks=12000, timeout=3400, shrinktime=120)),
+            dict(id="zones", run="^TestC12ZoneStringsAndThePool$", quick=dict(shards=2, checks=3000, timeout=300, env={"GOMAXPROCS": 2}),
+                 thorough=dict(shards=4, checks=100000, timeout=1800, env={"GOMAXPROCS": 2})),
         ]),
     ],
 )
